@@ -99,6 +99,31 @@ async fn run(name: &str) -> Result<(), String> {
                 Err(format!("discovery from the origin returned (path, applies in) = {:?}; unexpected {:?}; missing {:?}", got, got.difference(&want).collect::<Vec<_>>(), want.difference(&got).collect::<Vec<_>>()))
             }
         }
+        // C03 (BOUNDED: 2 placements outside the origin x 2 constructions x 6 probes): an ignore file of a directory that is not inside the origin still applies in
+        // its own directory only, with its patterns relative to that directory
+        "ignore_files_outside_the_origin" => {
+            let work = root.join("work"); let proj = work.join("proj"); let other = work.join("other");
+            for d in [proj.join("sub"), proj.join("build"), other.clone()] { std::fs::create_dir_all(&d).unwrap(); }
+            std::fs::write(other.join(".ignore"), "*.log\n").unwrap();                 // a sibling of the origin
+            std::fs::write(work.join(".ignore"), "/proj/build\n/sub\n").unwrap();      // the directory above the origin
+            let sib = file(&other.join(".ignore"), Some(&other)); let above = file(&work.join(".ignore"), Some(&work));
+            let mut checked = 0usize;
+            for (label, files) in [("sibling", vec![sib.clone()]), ("above", vec![above.clone()]), ("both", vec![sib.clone(), above.clone()]), ("both, reversed", vec![above.clone(), sib.clone()])] {
+                let via_new = IgnoreFilter::new(&proj, &files).await.map_err(|e| e.to_string())?;
+                let mut via_add = IgnoreFilter::empty(&proj);
+                for f in &files { via_add.add_file(f).await.map_err(|e| e.to_string())?; }
+                let has_above = label != "sibling";
+                // (path, is_dir, ignored?)
+                let probes = [(proj.join("app.log"), false, false), (proj.join("sub/app.log"), false, false), (proj.join("sub"), true, false),
+                              (proj.join("build"), true, has_above), (proj.join("build/out.o"), false, has_above), (proj.join("notes.txt"), false, false)];
+                for (how, f) in [("new", &via_new), ("empty + add_file", &via_add)] { for (p, is_dir, want) in &probes {
+                    let got = f.match_path(p, *is_dir).is_ignore(); checked += 1;
+                    if got != *want { return Err(format!("origin {}, ignore files outside it ({label}; built by {how}): {} is {}ignored, expected {}ignored (other/.ignore `*.log` applies in other/ only; work/.ignore `/proj/build`, `/sub` is relative to work/)", proj.display(), p.display(), if got { "" } else { "not " }, if *want { "" } else { "not " })); }
+                }}
+            }
+            println!("INFO ignore_files_outside_the_origin: {checked} verdicts");
+            Ok(())
+        }
         // C03 (history): files applying in the same directory keep their listed order (= their precedence), on every construction from identical inputs
         "same_directory_files_keep_their_listed_order" => {
             let d = root.join("proj"); std::fs::create_dir_all(&d).unwrap();
